@@ -506,6 +506,9 @@ func C13(c *core.Ctx) {
 	}
 	okFL, why := freeListLemma(c, false)
 	c.Check("R5", "closed-session-unreachable", token.NoPos, okFL, "after Close the session's slot is cleared before the SEID can be looked up or re-issued (C04 R4) "+why)
+	// "never emitted ... after its session has ended": every way a session ends reaches Close (session-end rules
+	// shared with C01 R6)
+	c01EndPaths(c, "R5", false)
 	if fn := p.SSAFn(p.Method(pkgPfcp, "LocalNode", "NewSess")); fn != nil {
 		for _, st := range storesToField(fn, qF) {
 			_, mk := st.Val.(*ssa.MakeMap)
